@@ -201,6 +201,7 @@ type Exec struct {
 	Trace      bool
 	loops      map[*ssa.Function]map[int]int // header block index -> ordinal
 	DryRun     bool
+	NamedCells bool // heap-allocated named locals get their source name as heap key (closure cells)
 	unsupported []string
 }
 
